@@ -1,12 +1,10 @@
 //! C07 evaluated directly on the real editor: an open candidate list is complete and consistently
 //! paged, choosing item i places exactly item i, an out-of-range index changes nothing.
 //!
-//! Finding classes (KNOWN_FINDINGS.txt):
+//! Finding class (KNOWN_FINDINGS.txt):
 //! * `F32-stale-page`  the list is recomputed on every query but the page number is only touched by
 //!   keys: an option / layout / dictionary call while the list is open (or a page number inherited from
 //!   such a state) leaves the current page ≥ the page count, or an open list with no candidates;
-//! * `symbol-oob`  an out-of-range choice on a symbol-table / special-symbol list is answered
-//!   Absorb/Ok, resets the page to 0 and leaves a sub-menu (phrase lists answer Bell and change nothing).
 //! Everything else is reported as `new`.
 use crate::step::*;
 use chewing::editor::keyboard::KeyCode;
@@ -266,17 +264,9 @@ fn check_choice(out: &mut Out, st: &Step, info: &SelInfo, v: &CandView, n: usize
     if !in_range {
         STATS.with(|s| s.borrow_mut().choices_out_of_range[k] += 1);
         let unchanged = a[0] == b[0] && a[1] == b[1] && a[2] == b[2] && a[3] == b[3] && a[4] == b[4] && misc(st.pre)[2] == misc(st.post)[2] && st.dict_pre == st.dict_post;
-        if info.kind == 'P' {
-            if accepted || !unchanged {
-                fail(out, "new", &format!("out-of-range choice {} (page {} x {} per page, {} candidates) on a phrase list answered {} / changed the state", n, info.page, v.per, v.all.len(), st.ret), st);
-            }
-        } else if !(unchanged && !accepted) {
-            // documented deviation of the symbol lists: accepted, page 0, back at the top-level menu
-            let (sa, sb) = (symbols(st.pre), symbols(st.post));
-            let exact = accepted
-                && post_sel.as_ref().is_some_and(|p| p.kind == info.kind && p.page == 0 && p.action == info.action && (p.kind != 'M' || p.detail == "-") && (p.kind != 'X' || p.detail == info.detail))
-                && sa.ends_with(&sb);
-            fail(out, if exact { "symbol-oob" } else { "new" }, &format!("out-of-range choice {} (page {} x {} per page, {} entries) on a symbol list answered {}, page -> {:?}", n, info.page, v.per, v.all.len(), st.ret, post_sel.as_ref().map(|p| p.page)), st);
+        // every kind of list: rejected (Bell / Err), nothing changed
+        if accepted || !unchanged {
+            fail(out, "new", &format!("out-of-range choice {} (page {} x {} per page, {} candidates) on a list of kind {} answered {} / changed the state (page -> {:?})", n, info.page, v.per, v.all.len(), info.kind, st.ret, post_sel.as_ref().map(|p| p.page)), st);
         }
         return;
     }
